@@ -327,6 +327,12 @@ pub fn run_prop(ctx: &Ctx) -> PropReport {
     rep.part(|| run_enum(ctx, "payload_sweep",
         "bounded-exhaustive: every byte string of length <= 2 (quick) / <= 3 (thorough) injected as the payload of an otherwise well-formed current input packet into a live running endpoint (1-byte and 4-byte input types, windows 8/0/2), 256 payloads per simulated session, compared with the twin run",
         blocks * 2, move |i| sweep_case(i, seed), eval, true));
+    // "never panics, aborts or allocates unboundedly" for any byte string as payload: the payload goes
+    // straight into the codec's decode entry point, which is swept in supervised child processes with the
+    // counting allocator (same machinery as C14, a different seed stream)
+    rep.part(|| super::c14::decode_sweep(ctx, "payload_alloc",
+        "indexed random/mutated payloads (1-24 raw bytes biased to varint continuation and run headers, and mutations of valid encodings) decoded by the real decode entry point in child processes under RLIMIT_AS: no panic, no abort, peak allocation <= 4 x 128 x 65537 bytes",
+        "rand", ctx.seed ^ 0xc08, ctx.tier.pick(6_000_000, 60_000_000), 1 << 15, false));
     rep.floors.push(("forged_twin".into(), 0.5));
     rep.assumptions = vec![
         "packets are forged by re-serialising real messages through a mirror of ggrs::Message's serde shape".into(),
